@@ -1,4 +1,5 @@
 import PlumpyModel.PM.Proof5
 import PlumpyModel.Outline.Proof
 import PlumpyModel.Expose.Proof
-import PlumpyModel.Ports.Model
+import PlumpyModel.Props.C11
+import PlumpyModel.Props.C12
